@@ -75,7 +75,7 @@ fn domain_and_commits(secp: &Secp256k1<All>, tx: &Transaction, utxos: &[TxOut]) 
         match u.asset.into_asset_gen(secp) { Some(g) => { if let Some(d) = dom.as_mut() { d.push(g) } } None => dom = None }
         match commit_of(secp, u) { Some(c) => { if let Some(d) = ins.as_mut() { d.push(c) } } None => ins = None }
         if inp.has_issuance() {
-            let (aid, tid) = inp.issuance_ids();
+            let (aid, tid) = c04::oracle_ids(inp);
             for (amt, id) in [(inp.asset_issuance.amount, aid), (inp.asset_issuance.inflation_keys, tid)] {
                 let g = Generator::new_unblinded(secp, id.into_tag());
                 match amt {
@@ -200,7 +200,7 @@ pub fn tamper_all(rng: &mut R, out: &mut Out, secp: &Secp256k1<All>, tx: &Transa
         let o = &tx.output[i];
         // explicit amount / asset
         if let Value::Explicit(v) = o.value {
-            if v > 0 || !o.script_pubkey.is_provably_unspendable() {
+            if v > 0 || !c04::oracle_unspendable(&o.script_pubkey) {
                 for nv in [v.wrapping_add(1), v.wrapping_sub(1), gen::u64_edge(rng)] {
                     if nv == v || nv == 0 { continue; }
                     let mut t = tx.clone();
@@ -212,7 +212,7 @@ pub fn tamper_all(rng: &mut R, out: &mut Out, secp: &Secp256k1<All>, tx: &Transa
                 // zero on a spendable script is refused as such; on an unspendable one the balance breaks
                 let mut t = tx.clone();
                 t.output[i].value = Value::Explicit(0);
-                let e = if o.script_pubkey.is_provably_unspendable() { bal.clone() } else { None };
+                let e = if c04::oracle_unspendable(&o.script_pubkey) { bal.clone() } else { None };
                 tampered(out, secp, "explicit_amount_to_zero", &t, utxos, orig, e);
                 if let Asset::Explicit(_) = o.asset {
                     let mut t = tx.clone();
@@ -464,6 +464,26 @@ fn random_utxo(rng: &mut R, secp: &Secp256k1<All>) -> TxOut {
 // explicit-only transactions: verifies iff balanced per asset
 
 fn explicit_case(rng: &mut R, out: &mut Out, secp: &Secp256k1<All>) {
+    explicit_case_with(rng, out, secp, None)
+}
+
+/// scripts on both sides of every clause of `is_provably_unspendable`: length 9 999 / 10 000 / 10 001 with
+/// and without a leading OP_RETURN, the empty script, a bare OP_RETURN, OP_RETURN's neighbours
+pub fn boundary_scripts() -> Vec<Script> {
+    let mut v = vec![Script::new(), Script::from(vec![0x6a]), Script::from(vec![0x69, 0x01, 0x00]), Script::from(vec![0x6b, 0x01, 0x00]), Script::from(vec![0x00, 0x6a])];
+    for len in [9_999usize, 10_000, 10_001] {
+        for first in [0x6au8, 0x51] {
+            let mut b = vec![0x51u8; len];
+            b[0] = first;
+            v.push(Script::from(b));
+        }
+    }
+    v
+}
+
+/// `zero_script`: instead of a random perturbation, a zero-value output on that script is added to the
+/// (otherwise balanced) transaction
+fn explicit_case_with(rng: &mut R, out: &mut Out, secp: &Secp256k1<All>, zero_script: Option<Script>) {
     let sh = Shape { n_in: rng.gen_range(1..=6), n_assets: rng.gen_range(1..=3), issuance: rng.gen_bool(0.4), max_outs: 3, zero_opreturn: rng.gen_bool(0.4), utxo_mode: 0, conf_issuance: false, seq: 0 };
     let mut base: Base = c04::base_tx(rng, secp, &sh);
     // all spent outputs explicit
@@ -478,8 +498,14 @@ fn explicit_case(rng: &mut R, out: &mut Out, secp: &Secp256k1<All>) {
     }
     let mut tx = base.tx.clone();
     let mut utxos = base.utxos.clone();
+    if let Some(zs) = &zero_script {
+        out.count(&format!("explicit.zero_output_script.len_{}_first_{}", zs.len(), zs.as_bytes().first().map(|b| format!("{:02x}", b)).unwrap_or("none".into())));
+        let pos = rng.gen_range(0..=tx.output.len());
+        let a = tx.output[0].asset;
+        tx.output.insert(pos, TxOut { asset: a, value: Value::Explicit(0), nonce: Nonce::Null, script_pubkey: zs.clone(), witness: TxOutWitness::default() });
+    }
     // perturbations that may or may not keep the balance
-    match rng.gen_range(0..10) {
+    match if zero_script.is_some() { 9 } else { rng.gen_range(0..10) } {
         0 => { let i = rng.gen_range(0..tx.output.len()); if let Value::Explicit(v) = tx.output[i].value { tx.output[i].value = Value::Explicit(v ^ (1 << rng.gen_range(0..64))); } }
         1 => { let i = rng.gen_range(0..tx.output.len()); tx.output[i].asset = Asset::Explicit(gen::asset_id(rng)); }
         2 => { let i = rng.gen_range(0..utxos.len()); if let Value::Explicit(v) = utxos[i].value { utxos[i].value = Value::Explicit(v ^ (1 << rng.gen_range(0..64))); } }
@@ -514,7 +540,7 @@ fn explicit_case(rng: &mut R, out: &mut Out, secp: &Secp256k1<All>) {
             _ => admissible = false,
         }
         if inp.has_issuance() {
-            let (aid, tid) = inp.issuance_ids();
+            let (aid, tid) = c04::oracle_ids(inp);
             for (amt, id) in [(inp.asset_issuance.amount, aid), (inp.asset_issuance.inflation_keys, tid)] {
                 match amt { Value::Null => {}, Value::Explicit(v) if v > 0 => *sums.entry(id).or_insert(0) += v as i128, _ => admissible = false }
             }
@@ -522,7 +548,7 @@ fn explicit_case(rng: &mut R, out: &mut Out, secp: &Secp256k1<All>) {
     }
     for o in &tx.output {
         match (o.asset, o.value) {
-            (_, Value::Explicit(0)) => { if !o.script_pubkey.is_provably_unspendable() { admissible = false } }
+            (_, Value::Explicit(0)) => { if !c04::oracle_unspendable(&o.script_pubkey) { admissible = false } }
             (Asset::Explicit(a), Value::Explicit(v)) => *sums.entry(a).or_insert(0) -= v as i128,
             _ => admissible = false,
         }
@@ -693,6 +719,12 @@ pub fn run(rng: &mut R, out: &mut Out) {
         }
     }
     eprintln!("c05: vectors {:?} ({} ops)", t0.elapsed(), out.k.len());
+    for rep in 0..(if thorough { 6 } else { 2 }) {
+        let _ = rep;
+        for zs in boundary_scripts() {
+            explicit_case_with(rng, out, &secp, Some(zs));
+        }
+    }
     for _ in 0..(if thorough { 4000 } else { 300 }) {
         explicit_case(rng, out, &secp);
     }
